@@ -296,6 +296,21 @@ Fixpoint collect_early (fuel : nat) (n : nat) (s : heap) : res (heap * list nat)
 
 End WithNH.
 
+(* A MUTANT of collect, not the code: it flags the nodes it reports without
+   computing their hashes (what happens when putting a node in a set no longer
+   hashes it through .hash): a collected node may then have no cached hash,
+   which invalidate_hash's early exit relies on.  Only used by
+   C14_collect_nohash_refuted. *)
+Fixpoint collect_nohash (fuel : nat) (n : nat) (s : heap) : res (heap * list nat) :=
+  match fuel with
+  | O => Err EFuel
+  | S f =>
+      x <- get s n ;;
+      fold_res (fun k acc => r' <- collect_nohash f k (fst acc) ;; Ok (fst r', snd acc ++ snd r'))
+               (map snd (kids x))
+               (if collected x then (s, []) else (upd n (set_collected true) s, [n]))
+  end.
+
 Fixpoint reset_collect (fuel : nat) (n : nat) (s : heap) : res heap :=
   match fuel with
   | O => Err EFuel
